@@ -1,4 +1,5 @@
 import Slu.Model.Struct
+import SluProofs.Lemmas.SymbArrays
 import SluProofs.Lemmas.SymbPack
 import SluProofs.Lemmas.SymbContain
 import SluProofs.Lemmas.RelaxOk
@@ -1114,3 +1115,64 @@ theorem symbNaive_contains_factors_symetree_diag {K : Type} [Field K] (A : Pat) 
 example : RelaxOk 3 exS.col (relaxEndOf 3 1 (symetree 3 (atPlusA exS).col) true) := relaxOk_of_symetree_diag exS 1
 
 end Slu.Symb
+
+/-! ## Array-level routines of the symbolic factorization (Slu/Model/SymbArrays.lean; family `symbarr`)
+
+The three routines below are compared with the C code by DIRECT calls (family `symbarr`); the theorems hold for
+all array contents satisfying the explicit decidable well-formedness predicates. -/
+namespace Slu.SymbArr
+open Slu Slu.Struct
+
+/-- **dsnode_dfs.c**: the subscripts of the relaxed supernode `jcol..kcol` (first copy, `lsub[xlsub[jcol] ..)`) are
+the rows of its columns in first-seen order; no duplicates. -/
+theorem snodeDfs_nodup {jcol kcol : Nat} {asub xaB xaE : Array Nat} {marker : Array Int} {lsub xlsub xprune : Array Nat}
+    (xsup : Array Nat) (supno : Array Int) (h : SnodeWf jcol kcol asub xaB xaE marker lsub xlsub xprune) :
+    let o := snodeDfs jcol kcol asub xaB xaE xprune marker xsup supno lsub xlsub
+    let len := (markerFilter (snodeRows jcol kcol asub xaB xaE) []).length
+    (segList o.lsub (xlsub.getD jcol 0) len).Nodup := by
+  intro o len
+  have := (snodeDfs_main xsup supno h).1
+  show (segList o.lsub (xlsub.getD jcol 0) (markerFilter (snodeRows jcol kcol asub xaB xaE) []).length).Nodup
+  rw [this]; exact markerFilter_nodup _ _ List.nodup_nil
+
+/-- **dsnode_dfs.c**: the stored list is the UNION of the row sets of columns `jcol..kcol`; when the supernode has more
+than one column the second copy (`lsub[xlsub[kcol] .. xlsub[kcol+1])`, the one pruning works on) is identical to the
+first; `xlsub`/`xprune` delimit exactly these lists; `nzlmax` is respected (nothing outside is written). -/
+theorem snodeDfs_union {jcol kcol : Nat} {asub xaB xaE : Array Nat} {marker : Array Int} {lsub xlsub xprune : Array Nat}
+    (xsup : Array Nat) (supno : Array Int) (h : SnodeWf jcol kcol asub xaB xaE marker lsub xlsub xprune) :
+    let o := snodeDfs jcol kcol asub xaB xaE xprune marker xsup supno lsub xlsub
+    let first := xlsub.getD jcol 0
+    let len := (markerFilter (snodeRows jcol kcol asub xaB xaE) []).length
+    let stop := first + (if jcol < kcol then 2 else 1) * len
+    (∀ r, r ∈ segList o.lsub first len ↔ ∃ i, jcol ≤ i ∧ i ≤ kcol ∧ r ∈ colRows asub xaB xaE i) ∧
+    (jcol < kcol → segList o.lsub (first + len) len = segList o.lsub first len) ∧
+    (jcol < kcol → ∀ i, jcol < i → i ≤ kcol → o.xlsub.getD i 0 = first + len) ∧
+    o.xlsub.getD (kcol+1) 0 = stop ∧ o.xprune.getD kcol 0 = stop ∧ stop ≤ lsub.size ∧ o.lsub.size = lsub.size ∧
+    (∀ k, k < first ∨ stop ≤ k → o.lsub.getD k 0 = lsub.getD k 0) := by
+  intro o first len stop
+  obtain ⟨m1, m2, m3, m4, m5, m6, m7, _, _, _⟩ := snodeDfs_main xsup supno h
+  refine ⟨?_, fun hh => by rw [m2 hh, m1], fun _ => m7, m5, m6, h.cap, m3, m4⟩
+  intro r
+  rw [m1, markerFilter_complete]
+  simp only [List.not_mem_nil, false_or, snodeRows, List.mem_flatMap, List.mem_range'_1]
+  constructor
+  · rintro ⟨i, ⟨h1, h2⟩, h3⟩; exact ⟨i, h1, by omega, h3⟩
+  · rintro ⟨i, h1, h2, h3⟩; exact ⟨i, ⟨h1, by omega⟩, h3⟩
+
+/-- the marker array afterwards: `marker[r] = kcol` exactly on the rows of the supernode, untouched elsewhere -/
+theorem snodeDfs_marker {jcol kcol : Nat} {asub xaB xaE : Array Nat} {marker : Array Int} {lsub xlsub xprune : Array Nat}
+    (xsup : Array Nat) (supno : Array Int) (h : SnodeWf jcol kcol asub xaB xaE marker lsub xlsub xprune) :
+    let o := snodeDfs jcol kcol asub xaB xaE xprune marker xsup supno lsub xlsub
+    let U := markerFilter (snodeRows jcol kcol asub xaB xaE) []
+    (∀ r, r < marker.size → (o.marker.getD r EMPTY = (kcol : Int) ↔ r ∈ U)) ∧
+    (∀ r, r ∉ U → o.marker.getD r EMPTY = marker.getD r EMPTY) := by
+  intro o U
+  obtain ⟨_, _, _, _, _, _, _, _, m9, m10⟩ := snodeDfs_main xsup supno h
+  exact ⟨m9, m10⟩
+
+/-- a relaxed supernode of three columns (1..3) with overlapping rows, stored out of order in `asub` -/
+example : SnodeWf 1 3 #[5,2, 0,4, 2,4,1, 1,3,5] #[2,0,4,7] #[4,2,7,10] #[-1,0,-1,0,-1,-1]
+    #[9,9,9, 0,0,0,0,0, 0,0,0,0,0, 0] #[0,3,77,77,77] #[3,77,77,77] := by decide
+example : (snodeDfs 1 3 #[5,2, 0,4, 2,4,1, 1,3,5] #[2,0,4,7] #[4,2,7,10] #[3,77,77,77] #[-1,0,-1,0,-1,-1] #[0,1,77,77,77] #[0,0,-1,-1,-1]
+    #[9,9,9, 0,0,0,0,0, 0,0,0,0,0, 0] #[0,3,77,77,77]).lsub.toList = [9,9,9, 5,2,4,1,3, 5,2,4,1,3, 0] := by decide
+end Slu.SymbArr
